@@ -4,6 +4,10 @@ import EdpVerif.Spec.ErlOrder
 import EdpVerif.Lemmas.ErlAgree
 import EdpVerif.Lemmas.ErlAgreeBits
 import EdpVerif.Lemmas.ErlAgreeRec
+import EdpVerif.Lemmas.SortMap
+import EdpVerif.Lemmas.CmpArmsEq
+import EdpVerif.Lemmas.CmpArmsRefine
+import EdpVerif.Lemmas.CmpTables
 /-
 C12 — term comparison agrees with Erlang's standard term order.
 Oracle: `Erl.cmp` on the denoted values (Spec/ErlOrder.lean); `Term.den` (Impl/Den.lean) is the denotation.
@@ -51,6 +55,13 @@ example : isNum (.big true [0, 0, 0, 0, 0, 0, 0, 0, 1]) ∧ numOk (.big true [0,
 /-- the general theorem: on well-formed terms the library's order IS Erlang's term order of the denoted values -/
 theorem C12_agrees (a b : Term) (wa : WFe a) (wb : WFe b) (sa : mapsSorted a) (sb : mapsSorted b) :
     Term.cmp a b = Erl.cmp (Term.den a) (Term.den b) := cmp_agrees a b wa wb sa sb
+
+/-- the same for the two arm-by-arm models (Impl/CmpArms.lean: `impl Ord for OwnedTerm` and `impl Ord for BorrowedTerm`
+function by function), which compute `Term.cmp` on every pair (Lemmas/CmpArmsRefine.lean, Lemmas/CmpArmsEq.lean) -/
+theorem C12_agrees_arms (a b : Term) (wa : WFe a) (wb : WFe b) (sa : mapsSorted a) (sb : mapsSorted b) :
+    Term.cmpOwned a b = Erl.cmp (Term.den a) (Term.den b) ∧ Term.cmpBorrowed a b = Erl.cmp (Term.den a) (Term.den b) := by
+  rw [cmpBorrowed_eq_cmpOwned, cmpOwned_eq_cmp]
+  exact ⟨cmp_agrees a b wa wb sa sb, cmp_agrees a b wa wb sa sb⟩
 
 /-- non-vacuity: a nested term with every kind of child satisfies the guard (a map key may be a float with a
 fractional part: 1.5) -/
@@ -136,5 +147,47 @@ theorem C12_not_agrees_nonminimal_big :
   constructor
   · simp [Term.cmp, Term.norm, Term.cmpN, cmpIntBig, natDigits_one, cmpSignedMag, signum, allZero, cmpMag, thenO]; decide
   · decide
+
+/-- the type-rank tables regenerated from `term_type_order` (term.rs) and `borrowed_type_order` (borrowed.rs) are the
+order the property states (number < atom < reference < fun < port < pid < tuple < map < nil/list < bit-string), and they are
+the `rank` of the model, for every constructor -/
+theorem C12_rank_table_is_the_source (t : Term) :
+    Gen.C11_OWNED_RANKS = erlangRanks ∧ Gen.C11_BORROWED_RANKS = erlangRanks ∧
+    Gen.C11_OWNED_RANKS.lookup (variantName t) = some (Term.rank t) := by
+  refine ⟨rfl, rfl, ?_⟩
+  cases t <;> simp only [variantName, Term.rank] <;> decide
+
+/-! ### the `mapsSorted` guard is an invariant of construction, not an assumption
+
+`OwnedTerm::Map` holds a `BTreeMap`: every map the library can hold has been built by insertions (decoder, `From`
+conversions, `collect`, `MapBuilder`) and possibly removals, all under the library's own order. Under C11's laws such a map
+stores its keys strictly ascending. -/
+
+/-- a map built by any sequence of insertions from entries whose keys have minimal big-integer digits (and whose own
+maps are in key order) satisfies `mapsSorted` -/
+theorem C12_built_map_sorted (l : List (Term × Term)) (hk : ∀ p ∈ l, WFo p.1)
+    (hs : ∀ p ∈ l, mapsSorted p.1 = true ∧ mapsSorted p.2 = true) : mapsSorted (.map (mapBuild l)) = true :=
+  mapsSorted_mapBuild l hk hs
+
+/-- the agreement theorem without the `mapsSorted` guard, for maps built by insertions (entry lists in ANY order, with
+duplicates): the library's order of the two built maps is Erlang's order of the maps they denote -/
+theorem C12_agrees_built_maps (la lb : List (Term × Term))
+    (wa : WFe (.map (mapBuild la))) (wb : WFe (.map (mapBuild lb)))
+    (ka : ∀ p ∈ la, WFo p.1) (kb : ∀ p ∈ lb, WFo p.1)
+    (sa : ∀ p ∈ la, mapsSorted p.1 = true ∧ mapsSorted p.2 = true)
+    (sb : ∀ p ∈ lb, mapsSorted p.1 = true ∧ mapsSorted p.2 = true) :
+    Term.cmp (.map (mapBuild la)) (.map (mapBuild lb)) =
+      Erl.cmp (Term.den (.map (mapBuild la))) (Term.den (.map (mapBuild lb))) :=
+  C12_agrees _ _ wa wb (mapsSorted_mapBuild la ka sa) (mapsSorted_mapBuild lb kb sb)
+
+/-- non-vacuity: entries given out of order and with a duplicate key -/
+example : (∀ p ∈ [((.atom [98] : Term), (.int 1 : Term)), (.atom [97], .int 2), (.atom [98], .int 3)], WFo p.1 = true) ∧
+    (∀ p ∈ [((.atom [98] : Term), (.int 1 : Term)), (.atom [97], .int 2), (.atom [98], .int 3)],
+      mapsSorted p.1 = true ∧ mapsSorted p.2 = true) := by
+  simp [WFo, mapsSorted]
+
+/-- removing entries keeps a map in key order -/
+theorem C12_sorted_after_removal (m m' : List (Term × Term)) (h : m'.Sublist m) (hs : keysSorted m) :
+    adjSorted m' = true := adjSorted_of_keysSorted m' (keysSorted_sublist h hs)
 
 end Edp.Props.C12
